@@ -395,6 +395,39 @@ def cache_invalidation_obligations():
         obs.append(o)
     if not obs:
         raise KeyError('no mutating public method of HSpace found')
+    # _clear_cache itself: it must reset EVERY memo attribute.  Memo attributes are the private (name-mangled) attributes self.__x that
+    # some method other than _clear_cache assigns; each of them needs an unconditional top-level `self.__x = None` in _clear_cache.
+    def private_stores(fn, top_level_only=False):
+        out = {}
+        nodes = fn.body if top_level_only else list(ast.walk(fn))
+        for n in nodes:
+            if isinstance(n, ast.Assign):
+                for t in n.targets:
+                    for e in (t.elts if isinstance(t, (ast.Tuple, ast.List)) else [t]):
+                        if isinstance(e, ast.Attribute) and isinstance(e.value, ast.Name) and e.value.id == 'self' and \
+                                e.attr.startswith('__') and not e.attr.endswith('__'):
+                            if not top_level_only or (isinstance(n.value, ast.Constant) and n.value.value is None):
+                                out.setdefault(e.attr, n.lineno)
+        return out
+    if '_clear_cache' not in methods:
+        raise KeyError('HSpace._clear_cache not found')
+    memo = {}
+    for nm, fn in methods.items():
+        if nm != '_clear_cache':
+            for a_, ln in private_stores(fn).items():
+                memo.setdefault(a_, (nm, ln))
+    reset = private_stores(methods['_clear_cache'], top_level_only=True)
+    if not memo:
+        raise KeyError('no memo attribute of HSpace found')
+    for a_, (nm, ln) in sorted(memo.items()):
+        o = Obligation('hierarchical:HSpace._clear_cache:resets:%s' % a_.lstrip('_'), 'rule', methods['_clear_cache'].lineno, [], None,
+                       '_clear_cache() unconditionally resets the memo attribute self.%s (assigned in %s, line %d) to None' % (a_, nm, ln), src=F)
+        ok = a_ in reset
+        o.status, o.backend, o.time = ('proved' if ok else 'refuted'), 'ast-frame-analysis', 0.0
+        if not ok:
+            o.goal = 'self.%s is assigned in HSpace.%s (line %d) but _clear_cache() has no top-level `self.%s = None`; it resets only %s' % (
+                a_, nm, ln, a_, sorted(reset))
+        obs.append(o)
     return obs, None
 
 
